@@ -70,7 +70,9 @@ META = {
         "emptied, and is advanced to len(buffer) only after a failed search and before anything is appended; a decision on the "
         "content of the read buffer (startswith / slice, index or length comparison, in the reader or in load/_load_v*) is taken "
         "only at eof or after a loop that reads until enough bytes or eof - the find-a-separator-else-read-more protocol and "
-        "emptiness tests are exempt. "
+        "emptiness tests are exempt; a zlib.decompressobj() has its `eof` tested (raising on an unfinished stream) before "
+        "the method ends normally; a method that reads does not call itself (one stack frame per read() is a RecursionError "
+        "for long lines from streams that return few bytes per read). "
         "R5: header constants and their dispatch, [11:] offsets of project name/version (through helpers), how a v1 line becomes "
         "three fields (canonical form of rstrip/strip + split(sep, maxsplit) + optional [:n]: Sphinx keeps the rest of the line "
         "as the location; field-count and blank-line skips before the unpacking are accepted), the v1 "
@@ -78,13 +80,17 @@ META = {
         "of their path conditions, with conditional expressions, `in (..)` tests and literal lookup tables lowered to branches, "
         "so a branch taken on a translated instead of the raw type field is seen; a first-wins guard in v1 "
         "is reported), the substring/separator, type-equality and location-suffix constants of the v2 loader, the entry-line "
-        "boundary set (str.splitlines) for v1 and v2, and the '-' sentinel of to_sphinx / from_sphinx / Sphinx's v1 loader "
+        "boundary set (str.splitlines) for v1 and v2 entries and for the v1 project/version lines (Sphinx takes them from the same "
+        "splitlines list), the item type to_sphinx stores (the constructor and keywords Sphinx's loader uses, e.g. "
+        "_InventoryItem(project_name, project_version, uri, display_name) for Sphinx >= 8.2), the base url joined into the "
+        "location by to_sphinx with the function Sphinx's loader uses (posixpath.join), and the '-' sentinel of to_sphinx / from_sphinx / Sphinx's v1 loader "
         "(from_sphinx must map exactly '' and '-' to None: lossless round trip)."
     ),
     "not_decided": (
         "equality of the loaded tables for every byte stream and every chunking as values (only the structural necessary "
-        "conditions above); zlib's own behaviour; recursion depth of the recursive readline for very long header lines read in "
-        "tiny chunks; the content of third-party streams; shapes outside the modelled subset answer ANALYSIS-ERROR (parse "
+        "conditions above); zlib's own behaviour; run time and memory bounds; drift of later Sphinx versions (the oracle is the "
+        "installed one); the deprecated tuple interface of Sphinx's item class on the reading side (from_sphinx / "
+        "filter_sphinx_inventories work either way, only a deprecation warning differs); the content of third-party streams; shapes outside the modelled subset answer ANALYSIS-ERROR (parse "
         "helpers that return something other than a NamedTuple/dataclass/tuple or None, tuple-swap stores to the buffer, method "
         "calls on the display name inside the sentinel predicate)"
     ),
@@ -2203,6 +2209,72 @@ class StmtBuf:
         return ev
 
 
+def _name_defs(stmts, name: str) -> list:
+    """[(statement, value expr)] for every binding of ``name``: plain assignment, or a walrus in the
+    expressions the statement node stands for (``while (pos := buf.find(sep)) == -1 and ...``)."""
+    out = []
+    for d in stmts:
+        if isinstance(d, ast.Assign) and any(_is_name(t, name) for t in d.targets):
+            out.append((d, d.value))
+        elif isinstance(d, (ast.AugAssign, ast.AnnAssign)) and _is_name(d.target, name):
+            out.append((d, None))
+        elif isinstance(d, ast.stmt):
+            for root in _own_exprs(d):
+                for x in ast.walk(root):
+                    if isinstance(x, ast.NamedExpr) and _is_name(x.target, name):
+                        out.append((d, x.value))
+    return out
+
+
+def _strip_walrus(t):
+    return t.target if isinstance(t, ast.NamedExpr) else t
+
+
+def _guards_imply(guards, want: str) -> bool:
+    """Do the branch facts force the expression ``want`` (source text) to be true? Propositional reasoning over
+    the atomic tests (walrus targets stand for their value, ``a != b`` is ``not a == b``), by truth table."""
+    atoms: list[str] = []
+
+    def build(t):
+        if isinstance(t, ast.UnaryOp) and isinstance(t.op, ast.Not):
+            return ("not", build(t.operand))
+        if isinstance(t, ast.BoolOp):
+            return ("and" if isinstance(t.op, ast.And) else "or", [build(v) for v in t.values])
+        neg = False
+        if isinstance(t, ast.Compare) and len(t.ops) == 1:
+            l, r = _strip_walrus(t.left), _strip_walrus(t.comparators[0])
+            if isinstance(t.ops[0], (ast.NotEq, ast.IsNot, ast.NotIn)):
+                neg = True
+                op = {ast.NotEq: "==", ast.IsNot: "is", ast.NotIn: "in"}[type(t.ops[0])]
+            else:
+                op = {ast.Eq: "==", ast.Is: "is", ast.In: "in"}.get(type(t.ops[0]), type(t.ops[0]).__name__)
+            text = f"{unparse(l)} {op} {unparse(r)}"
+        else:
+            text = unparse(_strip_walrus(t))
+        if text not in atoms:
+            atoms.append(text)
+        return ("not", ("atom", text)) if neg else ("atom", text)
+
+    def ev(f, val):
+        if f[0] == "atom":
+            return val[f[1]]
+        if f[0] == "not":
+            return not ev(f[1], val)
+        vs = [ev(x, val) for x in f[1]]
+        return all(vs) if f[0] == "and" else any(vs)
+
+    forms = [(build(t), pol) for t, pol in guards]
+    if want not in atoms:
+        return False
+    if len(atoms) > 10:
+        return False
+    for bits in range(1 << len(atoms)):
+        val = {a: bool(bits >> i & 1) for i, a in enumerate(atoms)}
+        if all(ev(f, val) == pol for f, pol in forms) and not val[want]:
+            return False
+    return True
+
+
 def _reach(cfg, starts, stop: set, fwd: bool = True) -> set:
     seen = set()
     work = list(starts)
@@ -2471,15 +2543,13 @@ def _judge_buffer(rep: Report, M: ReaderModel, m: FunctionInfo, b: str) -> None:
             pos = ups[0].id
             seps = set()
             defs = []
-            for d in inf:
-                if isinstance(d, ast.Assign) and any(_is_name(t, pos) for t in d.targets):
-                    v = d.value
-                    if not (isinstance(v, ast.Call) and isinstance(v.func, ast.Attribute) and v.func.attr in ("find", "rfind") and _is_b(v.func.value, b) and len(v.args) in (1, 2) and _cbytes(v.args[0]) is not None):
-                        raise Unsupported(f"{m.fq}: `{pos}` is not only assigned from {b}.find(<bytes>)")
-                    seps.add(_cbytes(v.args[0]))
-                    defs.append(d)
-                elif isinstance(d, (ast.AugAssign, ast.AnnAssign)) and _is_name(d.target, pos):
+            for d, v in _name_defs(list(inf), pos):
+                if v is None:
                     raise Unsupported(f"{m.fq}: `{pos}` is modified in an unknown way")
+                if not (isinstance(v, ast.Call) and isinstance(v.func, ast.Attribute) and v.func.attr in ("find", "rfind") and _is_b(v.func.value, b) and len(v.args) in (1, 2) and _cbytes(v.args[0]) is not None):
+                    raise Unsupported(f"{m.fq}: `{pos}` is not only assigned from {b}.find(<bytes>)")
+                seps.add(_cbytes(v.args[0]))
+                defs.append(d)
             if len(seps) != 1:
                 raise Unsupported(f"{m.fq}: `{pos}` has no single separator")
             sep = seps.pop()
@@ -2583,20 +2653,18 @@ def _bytes_provenance(e, fi: FunctionInfo, M: "ReaderModel", gens: set[str], at:
         if (in_reader and b == M.B) or b in local_bufs:
             pos = e.slice.upper.id
             seps = []
-            for d in fi.local_nodes():
-                if isinstance(d, ast.Assign) and any(_is_name(t, pos) for t in d.targets):
-                    v = d.value
-                    if isinstance(v, ast.Call) and isinstance(v.func, ast.Attribute) and v.func.attr in ("find", "rfind") and unparse(v.func.value) == b and len(v.args) in (1, 2) and _cbytes(v.args[0]) is not None:
-                        seps.append(_cbytes(v.args[0]))
-                    else:
-                        raise Unsupported(f"{fi.fq}: `{pos}` is not only assigned from {b}.find(<bytes>)")
+            for d, v in _name_defs([x for x in cfg.nodes if isinstance(x, ast.stmt)], pos):
+                if isinstance(v, ast.Call) and isinstance(v.func, ast.Attribute) and v.func.attr in ("find", "rfind") and unparse(v.func.value) == b and len(v.args) in (1, 2) and _cbytes(v.args[0]) is not None:
+                    seps.append(_cbytes(v.args[0]))
+                else:
+                    raise Unsupported(f"{fi.fq}: `{pos}` is not only assigned from {b}.find(<bytes>)")
             if seps and all(s and max(s) < 0x80 for s in seps):
                 return "ok", f"prefix of {b} up to an ASCII separator"
             return "chunk", f"prefix of {b} up to a position that is not an ASCII separator"
         raise Unsupported(f"{fi.fq}: slice `{short(e, 40)}` of unknown bytes")
     # the whole persistent buffer: only at end of stream
     if in_reader and unparse(e) == M.B:
-        if any(pol and unparse(t) == M.E for t, pol in cfg.guards(at)):
+        if any(pol and unparse(t) == M.E for t, pol in cfg.guards(at)) or _guards_imply(cfg.guards(at), M.E):
             return "ok", f"whole {M.B} at end of stream ({M.E})"
         return "chunk", f"{M.B} holds whatever the reads delivered so far and {M.E} is not known to be set"
     if isinstance(e, ast.Name):
@@ -2834,10 +2902,64 @@ def _judge_decompress(rep: Report, M: "ReaderModel") -> int:
     return n
 
 
+def _judge_stream_end(rep: Report, M: "ReaderModel") -> int:
+    """A ``zlib.decompressobj()`` does not complain when its input stops early (``flush()`` returns what it has):
+    before the method ends normally the object's ``eof`` must be tested and a truncated stream rejected."""
+    rid = "C18.R4"
+    n = 0
+    for m in M.methods:
+        cfg = get_cfg(m)
+        objs = [st for st in cfg.nodes if isinstance(st, ast.Assign) and len(st.targets) == 1 and isinstance(st.targets[0], ast.Name) and isinstance(st.value, ast.Call) and m.module.resolve(dotted(st.value.func) or "") == "zlib.decompressobj"]
+        for st in objs:
+            d = st.targets[0].id
+            n += 1
+            k = f"{m.fq}|{d}|truncated stream rejected"
+
+            def checks_eof(x) -> bool:
+                if not isinstance(x, ast.If):
+                    return False
+                reads = any(isinstance(y, ast.Attribute) and y.attr == "eof" and _is_name(y.value, d) for y in ast.walk(x.test))
+                # the branch taken when eof is false raises
+                neg = any(isinstance(t, ast.Attribute) and t.attr == "eof" and _is_name(t.value, d) and not pol for t, pol in facts(x.test, True))
+                pos_ = any(isinstance(t, ast.Attribute) and t.attr == "eof" and _is_name(t.value, d) and pol for t, pol in facts(x.test, True))
+                body_raises = any(isinstance(y, ast.Raise) for b_ in x.body for y in ast.walk(b_))
+                else_raises = any(isinstance(y, ast.Raise) for b_ in x.orelse for y in ast.walk(b_))
+                return reads and ((neg and body_raises) or (pos_ and else_raises))
+
+            asserts = lambda x: isinstance(x, ast.Assert) and any(isinstance(y, ast.Attribute) and y.attr == "eof" and _is_name(y.value, d) for y in ast.walk(x.test))
+            if not cfg.paths_avoiding(st, EXIT, lambda x: checks_eof(x)):
+                rep.ok(rid, k, m.module.site(st), f"every normal exit passes a test of {d}.eof that raises on an unfinished stream")
+            elif not cfg.paths_avoiding(st, EXIT, lambda x: checks_eof(x) or asserts(x)):
+                rep.ok(rid, k, m.module.site(st), f"{d}.eof asserted before the normal exit")
+            else:
+                rep.violation(rid, k, m.module.site(st), f"`{short(st, 50)}`: the method can end normally without testing {d}.eof; a zlib body that is cut short (interrupted download, only the header lines) then loads without error as a partial inventory, the entry at the cut keeping a shortened display name - Sphinx's zlib.decompress() raises")
+    return n
+
+
+def _judge_read_recursion(rep: Report, M: "ReaderModel") -> int:
+    """A reader method that calls itself after reading more data recurses once per read: the depth is the number
+    of reads a line needs, so a long line from a stream that returns few bytes per read() raises RecursionError
+    while the same bytes load from a BytesIO."""
+    rid = "C18.R4"
+    n = 0
+    readers = {mm.name for mm in M.methods if "append" in M.summ.get(mm.name, set())}
+    for m in M.methods:
+        if m.name not in readers:
+            continue
+        n += 1
+        k = f"{m.fq}|no recursion per read"
+        rec = [c for c in m.local_nodes() if isinstance(c, ast.Call) and isinstance(c.func, ast.Attribute) and _is_name(c.func.value, "self") and c.func.attr == m.name]
+        if rec:
+            rep.violation(rid, k, m.module.site(rec[0]), f"{m.qualname} calls itself (`{short(rec[0], 40)}`) after reading from the stream: one stack frame per read() that does not complete the line, so a 2500-character line read 1-2 bytes at a time raises RecursionError although the same bytes load in one read - use a loop")
+        else:
+            rep.ok(rid, k, m.site(), "reads in a loop")
+    return n
+
+
 @rule("C18.R4")
 def r4_buffer_conservation(corpus: Corpus, rep: Report, tier: str):
     corpus = _view(corpus)
-    rep.rule("C18.R4", "reader buffers: stores are append / consumed-prefix drop / consumed reset; consumed bytes discarded once; no tail left at exit; decode() only at entry/stream boundaries; line loops end on the eof flag; bounded decompress keeps its tail; cached search offsets reset when the buffer is cut; content decisions only at eof / after reading enough; eof only on b''; every chunk appended or handed on")
+    rep.rule("C18.R4", "reader buffers: stores are append / consumed-prefix drop / consumed reset; consumed bytes discarded once; no tail left at exit; decode() only at entry/stream boundaries; line loops end on the eof flag; bounded decompress keeps its tail; cached search offsets reset when the buffer is cut; content decisions only at eof / after reading enough; decompressor eof tested; no recursion per read; eof only on b''; every chunk appended or handed on")
     M = _reader(corpus)
     rid = "C18.R4"
     for m in M.methods:
@@ -2853,6 +2975,8 @@ def r4_buffer_conservation(corpus: Corpus, rep: Report, tier: str):
     if _judge_line_loops(rep, M, M.methods + [A.load, A.v1, A.v2]) < 1:
         raise Unsupported(f"{M.ci.fq}: no loop over readline() found")
     _judge_decompress(rep, M)
+    _judge_stream_end(rep, M)
+    _judge_read_recursion(rep, M)
     _judge_content_tests(rep, M, M.methods + [A.load, A.v1, A.v2])
     # reads and the eof flag
     n_reads = 0
@@ -3288,7 +3412,7 @@ def _show_set(s) -> str:
 @rule("C18.R5")
 def r5_constants(corpus: Corpus, rep: Report, tier: str):
     corpus = _view(corpus)
-    rep.rule("C18.R5", "header strings, [11:] offsets, v1 templates, v2 test constants, line boundaries and the '-' sentinel agree with Sphinx and between from/to_sphinx")
+    rep.rule("C18.R5", "header strings, [11:] offsets, v1 templates, v2 test constants, entry and v1-header line boundaries, to_sphinx item type and base-url join, and the '-' sentinel agree with Sphinx and between from/to_sphinx")
     rid = "C18.R5"
     A = _anchors(corpus)
     rep.saw_sibling(SIB)
@@ -3401,6 +3525,7 @@ def r5_constants(corpus: Corpus, rep: Report, tier: str):
     # (6) line boundaries
     M = _reader(corpus)
     seps = M.separators()
+    bounds: dict = {}
     for role, srcs, meth_attr in (("v1", _line_sources([A.s_v1, A.s_disp]), _line_sources([A.v1])), ("v2", _line_sources([A.s_v2]), _line_sources([A.v2]))):
         srcs -= {"readline"}
         meth_attr -= {"readline"}
@@ -3431,12 +3556,117 @@ def r5_constants(corpus: Corpus, rep: Report, tier: str):
             m_bound, where, site = bs, meth.fq, meth.site()
         else:
             raise Unsupported(f"how MyST produces {role} entry lines was not understood ({sorted(meth_attr)})")
+        bounds[role] = (m_bound, s_bound)
         k = f"{where}|{role} entry line boundaries"
         if m_bound == s_bound:
             rep.ok(rid, k, site, _show_set(m_bound))
         else:
             extra = sorted(s_bound - m_bound - {"\r\n"})
             rep.violation(rid, k, site, f"{role} entry lines end at {_show_set(m_bound)} only; Sphinx {ver} splits the decoded text with str.splitlines(), i.e. also at {extra!r}: an entry whose name or display name contains one of these is one entry here and two lines in Sphinx")
+    # (7) v1 header lines are cut like the entry lines (Sphinx takes both from one str.splitlines() list)
+    own1, ctx1, ne1, ve1 = _proj_version_exprs(corpus, A.v1)
+    s_own, _sctx, sne, sve = _proj_version_exprs(corpus, A.s_v1)
+
+    def header_source(fi_, e_):
+        """'readline' / 'iter' (next() of the entry-line iterator) / 'list' (an element of the entry-line list)"""
+        d_ = e_
+        for _ in range(3):
+            if isinstance(d_, ast.Name):
+                ds = [x for x in fi_.local_nodes() if isinstance(x, ast.Assign) and any(_is_name(t_, d_.id) for t_ in x.targets)]
+                if len(ds) != 1:
+                    return None
+                d_ = ds[0].value
+            else:
+                break
+        for x in ast.walk(d_):
+            if isinstance(x, ast.Call) and isinstance(x.func, ast.Attribute) and x.func.attr == "readline":
+                return "readline"
+            if isinstance(x, ast.Call) and isinstance(x.func, ast.Name) and x.func.id == "next" and x.args and isinstance(x.args[0], ast.Name):
+                ds = [y for y in fi_.local_nodes() if isinstance(y, ast.Assign) and any(_is_name(t_, x.args[0].id) for t_ in y.targets)]
+                if len(ds) == 1 and any(isinstance(z, ast.Call) and isinstance(z.func, ast.Attribute) and z.func.attr == "readlines" for z in ast.walk(ds[0].value)):
+                    return "iter"
+            if isinstance(x, ast.Subscript) and isinstance(x.value, ast.Name) and not isinstance(x.slice, ast.Slice) and isinstance(_const(x.slice), int):
+                return "list"
+        return None
+
+    for what, me_, se_ in (("project", ne1, sne), ("version", ve1, sve)):
+        ms_, ss_ = header_source(own1, me_), header_source(s_own, se_)
+        k = f"{A.v1.fq}|v1 {what} line boundaries"
+        if ms_ is None or ss_ is None:
+            raise Unsupported(f"where the v1 {what} line comes from was not understood ({ms_}, {ss_})")
+        s_hdr_bound = bounds["v1"][1] if ss_ in ("list", "iter") else {"\n"}
+        m_hdr_bound = bounds["v1"][0] if ms_ in ("list", "iter") else {s.decode("latin1") for s in seps.get(M.ci.methods["readline"].fq, set())} if "readline" in M.ci.methods else None
+        if not m_hdr_bound:
+            raise Unsupported(f"{A.v1.fq}: boundary of the v1 {what} line not found")
+        if m_hdr_bound == s_hdr_bound:
+            rep.ok(rid, k, own1.site(), _show_set(m_hdr_bound) if len(m_hdr_bound) < 3 else "str.splitlines boundaries, as the entry lines")
+        else:
+            rep.violation(rid, k, own1.module.site(me_), f"the v1 '# {what.capitalize()}:' line is cut at {_show_set(m_hdr_bound)} only while Sphinx {ver} takes it from the same str.splitlines() list as the entries: when the line ends with a carriage return (or another splitlines boundary) the following entries are swallowed into the {what} string and lost")
+    # (8) to_sphinx: the location includes the base url, joined as Sphinx's loader joins it
+    ts = A.to_sphinx
+    tstores = [st for st in ts.local_nodes() if isinstance(st, ast.Assign) and len(st.targets) == 1 and isinstance(st.targets[0], ast.Subscript) and Kinds(ts, _kind_seeds(corpus, ts, {}), corpus).kind(st.targets[0].value) == ("S", 1)]
+    if len(tstores) != 1:
+        raise Unsupported(f"{ts.fq}: store into the Sphinx-format table not found")
+    tval = tstores[0].value
+
+    def item_parts(fi_, v_, depth=0):
+        """[(kind, ctor dotted or None, {role: expr})] for what the value can be: a 4-tuple or a constructor call,
+        possibly made by a private helper (roles: project, version, uri, text)."""
+        roles4 = ["project", "version", "uri", "text"]
+        if isinstance(v_, ast.Tuple) and len(v_.elts) == 4:
+            return [("tuple", None, dict(zip(roles4, v_.elts)))]
+        if isinstance(v_, ast.Call):
+            kws = {kw.arg: kw.value for kw in v_.keywords if kw.arg}
+            if "uri" in kws:
+                rn = {"project_name": "project", "project_version": "version", "uri": "uri", "display_name": "text"}
+                return [("class", fi_.module.resolve(dotted(v_.func) or ""), {rn.get(k_, k_): x for k_, x in kws.items()}, tuple(sorted(kws)))]
+            t_ = _callee(corpus, fi_, v_)
+            if t_ is not None and depth < 2 and not t_.is_lambda:
+                out_ = []
+                for r_ in [x for x in t_.local_nodes() if isinstance(x, ast.Return) and x.value is not None]:
+                    for part in item_parts(t_, r_.value, depth + 1):
+                        mapped = {}
+                        for role_, ex_ in part[2].items():
+                            mapped[role_] = _param_arg(t_, v_, ex_.id) if isinstance(ex_, ast.Name) and ex_.id in t_.params else None
+                        out_.append(part[:2] + (mapped,) + part[3:])
+                return out_
+        return []
+
+    parts = item_parts(ts, tval)
+    if not parts:
+        raise Unsupported(f"{ts.fq}: the stored item `{short(tval, 50)}` was not understood")
+    s_parts = [p_ for st in S.body_stmts if _sphinx_store_mode(A, st) is not None for p_ in item_parts(S.fi, st.value)]
+    if len(s_parts) != 1:
+        raise Unsupported(f"{SIB}: item stored by {S.fi.qualname} not understood")
+    k = f"{ts.fq}|item type equals what Sphinx's loader stores"
+    want = s_parts[0]
+    same = [p_ for p_ in parts if p_[0] == want[0] and (want[0] == "tuple" or (p_[1] == f"sphinx.util.inventory.{want[1].rsplit('.', 1)[-1]}" and p_[3] == want[3]))]
+    if same:
+        rep.ok(rid, k, ts.module.site(tval), "4-tuple" if want[0] == "tuple" else f"{want[1].rsplit('.', 1)[-1]}({', '.join(want[3])})")
+    else:
+        rep.violation(rid, k, ts.module.site(tval), f"to_sphinx stores {sorted({p_[0] for p_ in parts})} items, Sphinx {ver}'s loader stores {want[1].rsplit('.', 1)[-1] if want[0] == 'class' else '4-tuples'}({', '.join(want[3]) if want[0] == 'class' else ''}): the converted inventory never equals the one Sphinx loads and lacks the attributes intersphinx reads")
+    uri_e = next((p_[2].get("uri") for p_ in (same or parts) if p_[2].get("uri") is not None), None)
+    k = f"{ts.fq}|location includes the base url"
+    if uri_e is None:
+        raise Unsupported(f"{ts.fq}: the uri of the stored item was not found")
+    # every expression the uri can come from
+    srcs_, work_, seen_ = [], [uri_e], set()
+    while work_:
+        x = work_.pop()
+        srcs_.append(x)
+        for n_ in ast.walk(x):
+            if isinstance(n_, ast.Name) and n_.id not in seen_:
+                seen_.add(n_.id)
+                work_ += [d.value for d in ts.local_nodes() if isinstance(d, ast.Assign) and any(_is_name(t_, n_.id) for t_ in d.targets)]
+    s_join = {S.fi.module.resolve(dotted(c.func) or "") for c in S.fi.local_nodes() if isinstance(c, ast.Call) and S.fi.module.resolve(dotted(c.func) or "") in IDENTITY_CALLS}
+    joins = [c for x in srcs_ for c in ast.walk(x) if isinstance(c, ast.Call) and ts.module.resolve(dotted(c.func) or "") in s_join]
+    uses_base = any(_cstr(n_.slice) == "base_url" for x in srcs_ for n_ in ast.walk(x) if isinstance(n_, ast.Subscript)) or any(isinstance(n_, ast.Call) and isinstance(n_.func, ast.Attribute) and n_.func.attr == "get" and n_.args and _cstr(n_.args[0]) == "base_url" for x in srcs_ for n_ in ast.walk(x))
+    if not s_join:
+        rep.ok(rid, k, ts.module.site(uri_e), f"Sphinx {ver} does not join a base uri")
+    elif joins and uses_base:
+        rep.ok(rid, k, ts.module.site(joins[0]), f"{sorted(s_join)[0]}(base_url, loc), as Sphinx's loader")
+    else:
+        rep.violation(rid, k, ts.module.site(uri_e), f"the uri of a converted item is `{short(uri_e, 40)}`, which does not go through {sorted(s_join)[0]}(base_url, loc): for an inventory loaded with a base_url, to_sphinx yields the relative location where Sphinx {ver}'s loader stores the full URL")
     rep.expect_min(rid, 14, "2 headers, 2 offset pairs, v1 split + 2 paths, 3 constant sets, 2 sentinels, 2 boundary sets")
 
 
@@ -3710,6 +3940,39 @@ def mutants(corpus: Corpus):
         add("c18-v1-module-spelling-also-renamed", "C18.R5", v1if.test, f'{tvn} in ("mod", "module")', "ITEMTYPE == 'module'")
     else:
         out.append(("c18-v1-anchor-from-translated-type", "v1 `if objtype == \"mod\"` with two/one statements not found"))
+    # --- reverts of the round-10 repairs
+    # 24b7429: the decompressor's eof is tested after the final flush
+    if rcc is not None:
+        eofif = find_node(rcc, lambda n: isinstance(n, ast.If) and any(isinstance(x, ast.Attribute) and x.attr == "eof" and not _is_name(x.value, "self") for x in ast.walk(n.test)))
+        add("c18-truncated-zlib-stream-check-reverted", "C18.R4", eofif, "pass", "truncated stream rejected")
+    # 0999667: readline reads in a loop instead of recursing once per read
+    if rl is not None:
+        M_ = _reader(corpus)
+        i_ = " " * rl.node.body[0].col_offset
+        body_first, body_last = rl.node.body[0], rl.node.body[-1]
+        old_readline = (
+            f'pos = {M_.B}.find(b"\\n")\n{i_}if pos != -1:\n{i_}    line = {M_.B}[:pos].decode()\n{i_}    {M_.B} = {M_.B}[pos + 1 :]\n'
+            f'{i_}elif {M_.E}:\n{i_}    line = {M_.B}.decode()\n{i_}    {M_.B} = b""\n{i_}else:\n{i_}    self.read_buffer()\n{i_}    line = self.{rl.name}()\n{i_}return line'
+        )
+        edits_ = [(body_first, old_readline)] + [(st_, "pass") for st_ in rl.node.body[1:]]
+        add2("c18-readline-recursion-per-read-reverted", "C18.R4", edits_, "no recursion per read")
+    # 2201503: the v1 header lines come from the same line iterator as the entries
+    nx = [n for n in v1.local_nodes() if isinstance(n, ast.Call) and isinstance(n.func, ast.Name) and n.func.id == "next"]
+    if nx and v1.params:
+        add2("c18-v1-header-cut-at-linefeed-only-reverted", "C18.R5", [(n, f"{v1.params[0]}.readline()") for n in nx], "line boundaries")
+    else:
+        out.append(("c18-v1-header-cut-at-linefeed-only-reverted", "the v1 loader no longer takes its header lines with next()"))
+    # c9a6adf: to_sphinx joins the base url to the location
+    bif = find_node(ts, lambda n: isinstance(n, ast.If) and any(isinstance(c, ast.Call) and ts.module.resolve(dotted(c.func) or "") in IDENTITY_CALLS for b_ in n.body for c in ast.walk(b_)))
+    add("c18-to-sphinx-base-url-ignored-reverted", "C18.R5", bif, "pass", "location includes the base url")
+    # 634b746: to_sphinx builds the item type the installed Sphinx stores
+    si = inv.functions.get("_sphinx_item")
+    ctor_ret = find_node(si, lambda n: isinstance(n, ast.Return) and isinstance(n.value, ast.Call) and kwarg(n.value, "uri") is not None) if si is not None else None
+    if ctor_ret is not None:
+        kw_ = {k.arg: unparse(k.value) for k in ctor_ret.value.keywords}
+        add("c18-to-sphinx-tuple-items-only-reverted", "C18.R5", ctor_ret, f"return ({kw_.get('project_name')}, {kw_.get('project_version')}, {kw_.get('uri')}, {kw_.get('display_name')})", "item type equals")
+    else:
+        out.append(("c18-to-sphinx-tuple-items-only-reverted", "no helper returning the Sphinx item class"))
     # class "v1 location cut at its first blank"
     try:
         un1 = _v1_unpack(v1)
@@ -3725,8 +3988,15 @@ def mutants(corpus: Corpus):
     else:
         out.append(("c18-v1-location-first-word", "v1 fields are not unpacked directly from a split call"))
     if rl is not None:
-        eof_t = find_node(rl, lambda n: isinstance(n, ast.If) and unparse(n.test) == _reader(corpus).E)
-        add("c18-readline-decodes-partial-buffer", "C18.R4", eof_t.test if eof_t else None, f"{_reader(corpus).E} or len({_reader(corpus).B}) >= _BUFSIZE", "is not known to be set")
+        E_, B_ = _reader(corpus).E, _reader(corpus).B
+        eof_t = find_node(rl, lambda n: isinstance(n, ast.If) and unparse(n.test) == E_)
+        eof_w = find_node(rl, lambda n: isinstance(n, ast.While) and any(unparse(x) == E_ for x in ast.walk(n.test)))
+        if eof_t is not None:  # if/elif form: the eof branch also taken for a long buffer
+            add("c18-readline-decodes-partial-buffer", "C18.R4", eof_t.test, f"{E_} or len({B_}) >= _BUFSIZE", "is not known to be set")
+        elif eof_w is not None:  # loop form: reading stops early for a long buffer
+            add("c18-readline-decodes-partial-buffer", "C18.R4", eof_w.test, f"({ast.get_source_segment(src, eof_w.test)}) and len({B_}) < _BUFSIZE", "is not known to be set")
+        else:
+            out.append(("c18-readline-decodes-partial-buffer", "readline has neither an eof branch nor an eof loop"))
     if rcc is not None:
         rs = find_node(rcc, lambda n: isinstance(n, ast.Assign) and _empty_bytes(n.value))
         add("c18-chunk-buffer-not-cleared", "C18.R4", rs, "pass", "processed twice")
